@@ -1174,7 +1174,7 @@ class Engine:
                             r, m = self.check()
                         if r == z3.sat:
                             obs = [(k, eval_under(m, v)) for k, v in self.observations]
-                            self.witnesses.append(dict(values=self.input_values(m), observations=obs))
+                            self.witnesses.append(dict(values=self.input_values(m), observations=obs, tags=dict(self.tags)))
                 except _Abort:
                     self.stats.bump("infeasible")
                     continue
